@@ -2,13 +2,33 @@
 package c12
 
 import (
+	"context"
 	"fmt"
 	"math/rand"
 	"strings"
+	"time"
 
+	"github.com/renbou/grpcbridge/bridgedesc"
 	"github.com/renbou/grpcbridge/grpcadapter"
+	"google.golang.org/grpc/codes"
+	"google.golang.org/grpc/metadata"
+	"google.golang.org/grpc/status"
 	"verif/harness/common"
 )
+
+// recConn records the deadline of the context the forwarder creates the outgoing stream with.
+type recConn struct {
+	called bool
+	has    bool
+	dl     time.Time
+}
+
+func (c *recConn) Close() {}
+func (c *recConn) Stream(ctx context.Context, method string) (grpcadapter.ClientStream, error) {
+	c.called = true
+	c.dl, c.has = ctx.Deadline()
+	return nil, status.Error(codes.Unavailable, "recorded")
+}
 
 type Area struct{}
 
@@ -23,6 +43,26 @@ func (Area) Exec(input string) string {
 			return "none"
 		}
 		return fmt.Sprintf("some:%d", int64(d))
+	case "ctx":
+		// ctx <hex value>...: the real ProxyForwarder.Forward (default filter) on an incoming context carrying these
+		// grpc-timeout values; output = the deadline the outgoing stream is created with, relative to the call start.
+		var vals []string
+		for _, h := range f[1:] {
+			vals = append(vals, string(common.MustUnHex(h)))
+		}
+		ctx := metadata.NewIncomingContext(context.Background(), metadata.MD{"grpc-timeout": vals})
+		rc := &recConn{}
+		pf := grpcadapter.NewProxyForwarder(grpcadapter.ProxyForwarderOpts{})
+		start := time.Now()
+		_ = pf.Forward(ctx, grpcadapter.ForwardParams{Method: bridgedesc.DummyMethod("t.S", "M"), Outgoing: rc})
+		switch {
+		case !rc.called:
+			return "notcalled"
+		case !rc.has:
+			return "nodl"
+		default:
+			return fmt.Sprintf("dl:%d", int64(rc.dl.Sub(start)))
+		}
 	}
 	return "BADOP"
 }
@@ -31,6 +71,35 @@ var alphabet = []byte("0123456789HMSmun+- _,x.")
 
 func (Area) Gen(r *rand.Rand, tier string, emit func(string)) {
 	dec := func(s string) { emit("dec " + common.HexS(s)) }
+	ctxop := func(vals ...string) {
+		l := "ctx"
+		for _, v := range vals {
+			l += " " + common.HexS(v)
+		}
+		emit(l)
+	}
+	// enforcement tie: what Forward does with the decoded value (zero, tiny, huge, malformed, several values)
+	for _, v := range []string{"0n", "0S", "0H", "00000000m", "1n", "1S", "10S", "99999999H", "2562047H", "2562048H", "5124096H", "97357816H", "+1S", "-1S", "1", "S", "", "1s", "100m", "5u"} {
+		ctxop(v)
+		ctxop(v, "7S")
+		ctxop("7S", v)
+	}
+	nctx := 300
+	if tier == "thorough" {
+		nctx = 5000
+	}
+	for i := 0; i < nctx; i++ {
+		u := common.Pick(r, []byte("HMSmunk"))
+		v := fmt.Sprintf("%d%c", r.Intn(100000000), u)
+		if r.Intn(4) == 0 {
+			v = fmt.Sprintf("%d%c", r.Intn(3), u)
+		}
+		if r.Intn(5) == 0 {
+			ctxop(v, fmt.Sprintf("%dS", r.Intn(100)))
+		} else {
+			ctxop(v)
+		}
+	}
 	// exhaustive over all strings of length ≤ 3 (quick) / ≤ 4 (thorough) over a 20-symbol alphabet
 	ex := []byte("019HMSmun+- _,xk\x00\xff8")
 	maxLen := 3
